@@ -71,6 +71,7 @@ def stream_cfg(ck):
     cfg.block_shadow = 'lang:block-shadow' not in open_keys
     cfg.arrays = True
     cfg.at_on_call = 'lang:at-of-call-untyped' not in open_keys
+    cfg.for_bound_mutated = 'lang:for-bound-reevaluated' not in open_keys
     return cfg
 
 
@@ -104,7 +105,8 @@ def run_engines(ck, b, progs, want_native=True, styles=('prefix',)):
 # generator features whose divergence is an OPEN finding of ONE engine: programs using them are still generated and still
 # judged on the other engine (and on all three ties); only the affected engine's property-level comparison is exempt
 ENGINE_FINDINGS = {'lang:self-ref-shadow': ('native', ('self_ref_shadow',), 'self_ref_shadow'),
-                   'lang:arg-order': ('native', ('multi_effect_args', 'multi_effect_operands'), 'multi_effect_args')}
+                   'lang:arg-order': ('native', ('multi_effect_args', 'multi_effect_operands'), 'multi_effect_args'),
+                   'lang:for-bound-reevaluated': ('native', ('for_bound_mutated',), 'for_bound_mutated')}
 
 
 def exempt_engines(ck, feat):
@@ -142,6 +144,10 @@ def check_programs(ck, b, nv, progs, feats, stream, want_native=True, ties=True)
         # optimisation-dependent) and what the binary prints otherwise is not modelled: NatSem says 'ccfail' for all of them.
         nat_unmodelled = (stream == 'gen' and mn is not None and mn['cls'] == 'ccfail'
                           and 'lang:self-ref-shadow' in {k['key'] for k in ck.known})
+        # a for loop whose body assigns a variable the range bound reads: the generated C re-evaluates the bound before every
+        # iteration (open finding lang:for-bound-reevaluated); NatSem models the single evaluation the language prescribes
+        nat_unmodelled = nat_unmodelled or (stream == 'gen' and 'for_bound_mutated' in feats.get(pid, {})
+                                            and 'lang:for-bound-reevaluated' in {k['key'] for k in ck.known})
         # ---- property level: each real engine against the reference
         for eng, obs in (('vm', R['vm_big']), ('native', R['nat'])):
             if obs is None:
